@@ -327,6 +327,22 @@ Prev(c) ==
     [] c.t = "prune"  -> PrunePrev(c)
     [] c.t = "bounds" -> BoundsPrev(c)
 
+RECURSIVE Build(_), Denote(_)
+Build(e) ==
+  CASE e.op = "vec"    -> Vec(e.s)
+    [] e.op = "lazy"   -> LazyNew(e.s)
+    [] e.op = "merge"  -> MergeNew([i \in 1..Len(e.kids) |-> Build(e.kids[i])])
+    [] e.op = "concat" -> ConcatNew([i \in 1..Len(e.kids) |-> Build(e.kids[i])])
+    [] e.op = "prune"  -> PruneNew(Build(e.c), e.ts)
+    [] e.op = "bounds" -> BoundsNew(Build(e.c), e.lo, e.hi)
+Denote(e) ==
+  CASE e.op = "vec"    -> e.s
+    [] e.op = "lazy"   -> e.s
+    [] e.op = "merge"  -> DMerge([i \in 1..Len(e.kids) |-> Denote(e.kids[i])])
+    [] e.op = "concat" -> DConcat([i \in 1..Len(e.kids) |-> Denote(e.kids[i])])
+    [] e.op = "prune"  -> DPrune(Denote(e.c), e.ts)
+    [] e.op = "bounds" -> DBounds(Denote(e.c), e.lo, e.hi)
+
 \* one step of a program: op is <<"first">>, <<"last">>, <<"seek", k>>, <<"next">>, <<"prev">>
 Apply(c, op) ==
   CASE op[1] = "first" -> SeekFirst(c)
